@@ -7,6 +7,7 @@
 -/
 import Resolved.Spec.CacheSpec
 import Resolved.Proofs.CacheHistory
+import Resolved.Proofs.CacheUse
 
 namespace Resolved
 
@@ -241,5 +242,155 @@ example :
     storedExpiry (run 10 ops) b.name 1 [] = some (61 * NANOS) ∧
     storedExpiry (run 10 ops) a.name 1 [] = none := by
   decide
+
+/-! ## The resolver never uses an expired cached record
+
+`resolve_local` reads the cache through `SharedCache::get` only (`Ctx.cacheGet`), at the clock
+reading `ctx.now`.  Vocabulary (Proofs/CacheUse.lean):
+* `cu_localRrs r` — ALL the records of a local result `r`, whatever its kind (spelled out in
+  `C05_local_result_records`);
+* `cu_FromZones zs rr` — `rr` stems from the local zones: `∃ k z, Zones.lookup zs.zones k = some z ∧
+  (z.soaRR = some rr ∨ cu_NodeStored z.records rr)`, where `cu_NodeStored node rr` says that `rr` is
+  `zr.toRR owner` for a zone record `zr` held in the exact-name map or in the wildcard map of a node
+  of the tree (`owner` = the query name — exact match or wildcard synthesis — or the node's name);
+* `cu_FollowsCachedCname fuel ctx q cnameRR cname` — the level of `resolve_local` at `(ctx, q)`
+  follows the cached alias `cnameRR → cname` (`C05_cached_cname_follow_is_the_recursive_call`). -/
+
+/-- the records of each kind of local result: answer, authority (SOA) and referral NS records alike -/
+theorem C05_local_result_records :
+    (∀ rrs soa, cu_localRrs (.done (.authoritative rrs soa)) = rrs ++ [soa]) ∧
+    (∀ soa, cu_localRrs (.done (.authoritativeNameError soa)) = [soa]) ∧
+    (∀ rrs soa, cu_localRrs (.done (.nonAuthoritative rrs soa)) = rrs ++ soa.toList) ∧
+    (∀ rrs, cu_localRrs (.partialAnswer rrs) = rrs) ∧
+    (∀ rrs soa d, cu_localRrs (.delegation rrs soa d) = rrs ++ soa.toList) ∧
+    (∀ rrs cq, cu_localRrs (.cname rrs cq) = rrs) :=
+  ⟨fun _ _ => rfl, fun _ => rfl, fun _ _ => rfl, fun _ => rfl, fun _ _ _ => rfl, fun _ _ => rfl⟩
+
+/-- B1: every record of every `ok` outcome of `resolve_local` (done / partial answer / alias chain /
+    referral) either stems from the local zones, or is a record the cache stores under its own
+    `(name, type, data)` with an expiry STRICTLY LATER than the clock, and is reported with a TTL of
+    at least one second and of no more than the time it has left.  The cache is the one the
+    resolution started with (lookups along the way only refresh `last_read`:
+    `C05_resolveLocal_store_unchanged`). -/
+theorem C05_resolveLocal_cache_records_live (fuel : Nat) (ctx : Ctx) (q : Question) (hinv : Inv ctx.cache)
+    (r : LocalResult) (h : (resolveLocal fuel ctx q).2 = .ok r) :
+    ∀ rr ∈ cu_localRrs r,
+      cu_FromZones ctx.zones rr ∨
+      ∃ e, storedExpiry ctx.cache rr.name rr.rtype rr.fields = some e ∧ ctx.now < e ∧ 1 ≤ rr.ttl ∧
+        rr.ttl * NANOS ≤ e - ctx.now := by
+  intro rr hrr
+  rcases cu_resolveLocal_src fuel ctx q r h rr hrr with hz | hl
+  · exact Or.inl hz
+  · exact Or.inr (cu_liveIn_stored hinv hl)
+
+/-- B1 without the structural invariant (every cache state, reachable or not): the cache-side
+    disjunct then reads "the partition of the record's name holds a tuple with the record's type and
+    data whose expiry is strictly later than the clock". -/
+theorem C05_resolveLocal_cache_records_live_any_state (fuel : Nat) (ctx : Ctx) (q : Question)
+    (r : LocalResult) (h : (resolveLocal fuel ctx q).2 = .ok r) :
+    ∀ rr ∈ cu_localRrs r,
+      cu_FromZones ctx.zones rr ∨
+      ∃ kv ∈ recsAt ctx.cache rr.name, ∃ t ∈ kv.2, t.1.rtype = rr.rtype ∧ t.1.fields = rr.fields ∧
+        ctx.now < t.2 ∧ 1 ≤ rr.ttl ∧ rr.ttl * NANOS ≤ t.2 - ctx.now :=
+  fun rr hrr => cu_resolveLocal_src fuel ctx q r h rr hrr
+
+/-- Local resolution changes no stored expiry (it only refreshes `last_read`), so "the cache" in
+    B1 is unambiguous. -/
+theorem C05_resolveLocal_store_unchanged (fuel : Nat) (ctx : Ctx) (q : Question) (k : Name) (rt : Nat)
+    (fs : List FieldVal) :
+    storedExpiry (resolveLocal fuel ctx q).1.cache k rt fs = storedExpiry ctx.cache k rt fs :=
+  cu_resolveLocal_storedExpiry fuel ctx q k rt fs
+
+/-- B1 for the authoritative-only mode of `resolve` (what the server sends when recursion is off). -/
+theorem C05_auth_only_records_live (ctx : Ctx) (q : Question) (hinv : Inv ctx.cache) (res : ResolvedRecord)
+    (h : (resolveAuthoritativeOnly ctx q).2 = .ok res) :
+    ∀ rr ∈ res.rrs ++ res.soaRR.toList,
+      cu_FromZones ctx.zones rr ∨
+      ∃ e, storedExpiry ctx.cache rr.name rr.rtype rr.fields = some e ∧ ctx.now < e ∧ 1 ≤ rr.ttl ∧
+        rr.ttl * NANOS ≤ e - ctx.now := by
+  unfold resolveAuthoritativeOnly at h
+  simp only at h
+  cases hl : (resolveLocal (Gen.RECURSION_LIMIT + 1) ctx q).2 with
+  | error e => rw [hl] at h; cases h
+  | ok lr =>
+    rw [hl] at h
+    simp only [Except.map, Except.ok.injEq] at h
+    subst h
+    intro rr hrr
+    have : rr ∈ cu_localRrs lr := by rw [← cu_toResolved_rrs]; exact hrr
+    exact C05_resolveLocal_cache_records_live _ ctx q hinv lr hl rr this
+
+/-- B2, adequacy of the vocabulary: `cu_FollowsCachedCname` is exactly the situation in which the
+    level makes its recursive call for a cached alias — the outcome is then the wrapped outcome of
+    resolving the alias target (same type and class) with the question pushed on the stack. -/
+theorem C05_cached_cname_follow_is_the_recursive_call (fuel : Nat) (ctx : Ctx) (q : Question) (cnameRR : RR)
+    (cname : Name) (hf : cu_FollowsCachedCname fuel ctx q cnameRR cname) :
+    ∃ rz, zonePart (resolveLocal fuel) ctx q = (ctx, .inr rz) ∧
+      resolveLocal (fuel + 1) ctx q =
+        finishPart q rz (cacheCnameFinish cnameRR cname
+          (resolveLocal fuel
+            ((((ctx.cacheGet q.name q.qtype).1.cacheGet q.name CNAME_QTYPE).1).push q)
+            { name := cname, qtype := q.qtype, qclass := q.qclass })) :=
+  cu_follows_unfold hf
+
+/-- B2: if `resolve_local` follows a cached CNAME for `q.name`, that CNAME record is the stored key
+    `(q.name, CNAME, data)` and its expiry is strictly later than the clock (and its TTL is ≥ 1 and ≤
+    the time left). -/
+theorem C05_cached_cname_followed_only_while_live (fuel : Nat) (ctx : Ctx) (q : Question) (cnameRR : RR)
+    (cname : Name) (hinv : Inv ctx.cache) (hf : cu_FollowsCachedCname fuel ctx q cnameRR cname) :
+    cnameRR.name = q.name ∧ cnameRR.rtype = RT_CNAME ∧
+    ∃ e, storedExpiry ctx.cache q.name RT_CNAME cnameRR.fields = some e ∧ ctx.now < e ∧
+      1 ≤ cnameRR.ttl ∧ cnameRR.ttl * NANOS ≤ e - ctx.now :=
+  cu_followed_cname_stored hinv hf
+
+/-- … and without the invariant: the followed alias is `to_rrs` of a tuple filed under CNAME for the
+    question name whose expiry is strictly later than the clock. -/
+theorem C05_cached_cname_followed_only_while_live_any_state (fuel : Nat) (ctx : Ctx) (q : Question)
+    (cnameRR : RR) (cname : Name) (hf : cu_FollowsCachedCname fuel ctx q cnameRR cname) :
+    ∃ t ∈ tuplesAt ctx.cache q.name RT_CNAME, cnameRR = mkRR q.name ctx.now t ∧ ctx.now < t.2 ∧
+      1 ≤ cnameRR.ttl ∧ cnameRR.ttl * NANOS ≤ t.2 - ctx.now :=
+  cu_followed_cname_live hf
+
+/-- B2, contrapositive: once no CNAME tuple of the question name has a full second left, no cached
+    alias is followed (whatever the rest of the cache holds). -/
+theorem C05_stale_cached_cname_not_followed (fuel : Nat) (ctx : Ctx) (q : Question)
+    (hst : ∀ t ∈ tuplesAt ctx.cache q.name RT_CNAME, t.2 < ctx.now + NANOS) (cnameRR : RR) (cname : Name) :
+    ¬ cu_FollowsCachedCname fuel ctx q cnameRR cname :=
+  cu_stale_cname_not_followed hst cnameRR cname
+
+/-- non-vacuity (no zones; `k.` CNAME `o.` with TTL 100 s and `o.` A with TTL 50 s cached at t = 0;
+    question `k. A`): at 40 s both are live — the alias is followed and the TTLs reported are the
+    seconds left; at 70 s only the alias is live — the result is the alias and the question to
+    continue with; at 100 s (the alias's expiry reached) nothing is used: dead end. -/
+example :
+    let nK : Name := ⟨[[107], []], 3⟩
+    let nO : Name := ⟨[[111], []], 3⟩
+    let rrK : RR := ⟨nK, 5, [.name nO], 1, 100⟩
+    let rrO : RR := ⟨nO, 1, [.a 7], 1, 50⟩
+    let cache := sharedInsertAll (PCache.new 10) [rrK, rrO] 0
+    let q : Question := ⟨nK, 1, 1⟩
+    let ctx (now : Nat) : Ctx := { zones := Zones.empty, cache := cache, now := now, stack := [] }
+    (resolveLocal 33 (ctx (40 * NANOS)) q).2.toOption =
+      some (.done (.nonAuthoritative [{ rrK with ttl := 60 }, { rrO with ttl := 10 }] none)) ∧
+    (resolveLocal 33 (ctx (70 * NANOS)) q).2.toOption = some (.cname [{ rrK with ttl := 30 }] ⟨nO, 1, 1⟩) ∧
+    (match (resolveLocal 33 (ctx (100 * NANOS)) q).2 with | .error e => some e | .ok _ => none)
+      = some (.deadEnd q) := by
+  decide +kernel
+
+/-- non-vacuity of the hypothesis of B2: in the state above at 40 s the level does follow the cached
+    alias (reported with the 60 s it has left), whose stored expiry is 100 s. -/
+example :
+    let nK : Name := ⟨[[107], []], 3⟩
+    let nO : Name := ⟨[[111], []], 3⟩
+    let rrK : RR := ⟨nK, 5, [.name nO], 1, 100⟩
+    let rrO : RR := ⟨nO, 1, [.a 7], 1, 50⟩
+    let cache := sharedInsertAll (PCache.new 10) [rrK, rrO] 0
+    let q : Question := ⟨nK, 1, 1⟩
+    let ctx : Ctx := { zones := Zones.empty, cache := cache, now := 40 * NANOS, stack := [] }
+    cu_FollowsCachedCname 32 ctx q { rrK with ttl := 60 } nO ∧
+    storedExpiry ctx.cache nK 5 [.name nO] = some (100 * NANOS) ∧ Inv ctx.cache := by
+  intro nK nO rrK rrO cache q ctx
+  exact ⟨⟨by decide, by decide, ⟨[], rfl⟩, by decide +kernel, by decide, ⟨[], by decide +kernel⟩, by decide +kernel⟩,
+    by decide +kernel, (Inv.new 10).sharedInsertAll _ _⟩
 
 end Resolved
